@@ -548,7 +548,11 @@ pub fn gadget_web_count(g: usize, s: usize) -> u64 {
     let hh = g * (g - 1) / 2;
     (1u64 << hh) * (1u64 << (s * g)) * 4
 }
-pub fn gadget_web_at(g: usize, s: usize, mut idx: u64) -> DiagSpec {
+pub fn gadget_web_at(g: usize, s: usize, idx: u64) -> DiagSpec {
+    gadget_web_at_opt(g, s, idx, false)
+}
+/// `closed`: the support spiders carry no outputs (a scalar diagram, for the decomposer)
+pub fn gadget_web_at_opt(g: usize, s: usize, mut idx: u64, closed: bool) -> DiagSpec {
     let hh = g * (g - 1) / 2;
     let variant = (idx % 4) as usize;
     idx /= 4;
@@ -578,10 +582,12 @@ pub fn gadget_web_at(g: usize, s: usize, mut idx: u64) -> DiagSpec {
             e += 1;
         }
     }
-    for &x in &sup {
-        let b = d.add(0, (0, 1));
-        d.edges.push((x, b, false));
-        d.outputs.push(b);
+    if !closed {
+        for &x in &sup {
+            let b = d.add(0, (0, 1));
+            d.edges.push((x, b, false));
+            d.outputs.push(b);
+        }
     }
     d
 }
